@@ -135,6 +135,20 @@ def gen(seed, tier):
         for o in (5, 6, 7):
             out.append(f"op2@{['u8', 'i32', 'bool'][o - 5]} z{o} {arr(s1, [1] * prod(s1))} {arr(s2, [1] * prod(s2))}")
             out.append(f"op2a@{['bool', 'u8', 'i32'][o - 5]} z{o} {arr(s1, [1] * prod(s1))} {arr(s2, [1] * prod(s2))}")
+    # each ordering operator on its own, on equal and on different shapes, with equal and with different leading elements
+    # (seeded change C20j: < <= > >= answered from the first differing pair before any shape check)
+    for s1, s2 in itertools.product(small_sh, repeat=2):
+        for lead in (0, 1, 5):
+            e1 = [lead] + [rng.randint(0, 3) for _ in range(prod(s1) - 1)]
+            e2 = [3] + [rng.randint(0, 3) for _ in range(prod(s2) - 1)]
+            out.append(f"cmpops@{rng.choice(['i32', 'i64', 'f64'])} {arr(s1, e1)} {arr(s2, e2)}")
+    for sh in list(shapes(3, 3)):
+        for _ in range(3):
+            e1 = [rng.randint(0, 2) for _ in range(prod(sh))]
+            e2 = list(e1)
+            if rng.random() < 0.7:
+                e2[rng.randrange(len(e2))] = rng.randint(0, 2)
+            out.append(f"cmpops@i32 {arr(sh, e1)} {arr(sh, e2)}")
     # values no double represents exactly: any detour through f64 (as the math module's functions take) shows
     BIG = [2 ** 53 + 1, -(2 ** 53 + 1), 1234567890123456789, 2 ** 62 + 1, -(2 ** 62 + 1), 2 ** 63 - 1, -(2 ** 63 - 1), 9007199254740993]
     for sh in ([1], [3], [2, 2], [2, 1, 2]):
